@@ -8,7 +8,7 @@
 
 use simcore::driver::{case_text, Replay};
 use simcore::emit::{builder_module, layout_module, main_rs, shard_cargo_toml, workspace_cargo_toml, ShardMember};
-use simcore::layout::{gen_bad_enum_probes, gen_default_probes, gen_layout, gen_mismatch_probes, gen_narrow_probes, gen_probes, gen_syntax_probes, gen_syntax_probes_at, is_native, storage_bits, GenOpts, Layout};
+use simcore::layout::{gen_canonical, gen_bad_enum_probes, gen_default_probes, gen_layout, gen_mismatch_probes, gen_narrow_probes, gen_probes, gen_syntax_probes, gen_syntax_probes_at, is_native, storage_bits, GenOpts, Layout};
 use simcore::prng::{mix, Rng, TAG_LAYOUT, TAG_PROBE};
 use simcore::shrink::{reduce_layout, referenced_fields};
 use std::fs;
@@ -56,6 +56,7 @@ const TAG_BADENUM: u64 = 0x4241_4445;
 pub const NARROW_ID_BASE: u32 = 5_000_000;
 const TAG_NARROW: u64 = 0x4e41_5252;
 pub const SYNTAX_ID_BASE: u32 = 6_000_000;
+pub const CANONICAL_ID_BASE: u32 = 7_000_000;
 const TAG_SYNTAX: u64 = 0x5359_4e54;
 
 fn probes_for(prop: &str, seed: u64, which: &str) -> Vec<Layout> {
@@ -63,6 +64,8 @@ fn probes_for(prop: &str, seed: u64, which: &str) -> Vec<Layout> {
     if which == "none" {
         return out;
     }
+    // class H: hand-picked rule-valid corner layouts, the same in every run
+    out.extend(gen_canonical(prop == "C11", CANONICAL_ID_BASE));
     let arb_all: Vec<u32> = (1..=127).filter(|&n| !is_native(n) && storage_bits(n) > n).collect();
     if prop == "C11" {
         let widths: Vec<u32> = if which == "quick" { QUICK_PROBE_WIDTHS.to_vec() } else { arb_all.clone() };
